@@ -206,8 +206,8 @@ Lemma step_rtsp_auth fx w s k m p cr :
   toks (fst (step_rtsp fx w s k m p cr)) = toks s /\ grants (fst (step_rtsp fx w s k m p cr)) = grants s.
 Proof. unfold step_rtsp. break_step; simpl; auto. Qed.
 
-Lemma step_wsopen_auth fx s kind p t ch :
-  toks (fst (step_wsopen fx s kind p t ch)) = toks s /\ grants (fst (step_wsopen fx s kind p t ch)) = grants s.
+Lemma step_wsopen_auth fx s kind p t ch h :
+  toks (fst (step_wsopen fx s kind p t ch h)) = toks s /\ grants (fst (step_wsopen fx s kind p t ch h)) = grants s.
 Proof. unfold step_wsopen. break_step; simpl; auto. Qed.
 
 Lemma step_wsrtsp_auth fx w s k m p :
@@ -218,12 +218,12 @@ Lemma step_wsp_auth fx s k m :
   toks (fst (step_wsp fx s k m)) = toks s /\ grants (fst (step_wsp fx s k m)) = grants s.
 Proof. unfold step_wsp. break_step; simpl; auto. Qed.
 
-Lemma step_http_auth fx s kind p t q :
-  fst (step_http fx s kind p t q) = s.
+Lemma step_http_auth fx s kind p t q h :
+  fst (step_http fx s kind p t q h) = s.
 Proof. unfold step_http. break_step; simpl; auto. Qed.
 
-Lemma step_api_auth s ep t u b n :
-  toks (fst (step_api s ep t u b n)) = toks s /\ grants (fst (step_api s ep t u b n)) = grants s.
+Lemma step_api_auth s ep t u b n h :
+  toks (fst (step_api s ep t u b n h)) = toks s /\ grants (fst (step_api s ep t u b n h)) = grants s.
 Proof. unfold step_api. break_step; simpl; auto. Qed.
 
 Lemma step_tok_inv fx w s ev : tok_inv s -> tok_inv (fst (step_gen fx w s ev)).
@@ -237,11 +237,11 @@ Proof.
     pose proof (tok_inv_refresh s t H) as H2. destruct (refresh s t). exact H2.
   - exact H.
   - destruct (step_rtsp_auth fx w s k m path cr). eapply tok_inv_ext; eauto.
-  - destruct (step_wsopen_auth fx s kind path t chan). eapply tok_inv_ext; eauto.
+  - destruct (step_wsopen_auth fx s kind path t chan hdrs). eapply tok_inv_ext; eauto.
   - destruct (step_wsrtsp_auth fx w s k m path). eapply tok_inv_ext; eauto.
   - destruct (step_wsp_auth fx s k m). eapply tok_inv_ext; eauto.
   - rewrite step_http_auth. exact H.
-  - destruct (step_api_auth s ep t u upd_pw name). eapply tok_inv_ext; eauto.
+  - destruct (step_api_auth s ep t u upd_pw name hdrs). eapply tok_inv_ext; eauto.
 Qed.
 
 Inductive reachable (w : list bytes) : state -> Prop :=
@@ -526,21 +526,45 @@ Proof.
   destruct t as [| | |[|x b]]; reflexivity.
 Qed.
 
-Lemma stream_gate_spec s t path seg :
+(* the request header through which the interceptors pass the verified name: Set makes the client's copies irrelevant *)
+Lemma hdr_get_set hs k v : hdr_get (hdr_set hs k v) k = v.
+Proof.
+  unfold hdr_set. induction hs as [|[k' v'] hs IH]; simpl.
+  - rewrite bytes_eqb_refl. reflexivity.
+  - destruct (bytes_eqb k' k) eqn:E; simpl; [exact IH|]. rewrite E. exact IH.
+Qed.
+
+Lemma ident_hdr_set hdrs u : ident_hdr false hdrs u = u.
+Proof. unfold ident_hdr. apply hdr_get_set. Qed.
+
+Lemma stream_gate_hdrs fx s t path seg hdrs :
+  stream_gate fx s t path seg hdrs = stream_gate fx s t path seg [].
+Proof.
+  unfold stream_gate, stream_gate_h. destruct (auth_gate s t); [|reflexivity].
+  rewrite !ident_hdr_set. reflexivity.
+Qed.
+
+Lemma api_gate_hdrs s ep t hdrs : api_gate s ep t hdrs = api_gate s ep t [].
+Proof.
+  unfold api_gate, api_gate_h. destruct (ep_open ep); [reflexivity|]. destruct (auth_gate s t); [|reflexivity].
+  rewrite !ident_hdr_set. reflexivity.
+Qed.
+
+Lemma stream_gate_spec s t path seg hdrs :
   tok_inv s ->
-  stream_gate true s t path seg =
+  stream_gate true s t path seg hdrs =
   match token_identity s t with
   | None => (401, [])
   | Some u => if spec_allows (users s) u APull path then (200, u) else (403, u)
   end.
 Proof.
-  intros H. unfold stream_gate. rewrite auth_gate_spec by exact H.
+  intros H. unfold stream_gate, stream_gate_h. rewrite auth_gate_spec by exact H.
   destruct (token_identity s t) as [u|]; [|reflexivity].
-  rewrite <- perm_go_pull. destruct seg; reflexivity.
+  rewrite ident_hdr_set. rewrite <- perm_go_pull. destruct seg; reflexivity.
 Qed.
 
-Lemma judge_http w s kind path t q :
-  tok_inv s -> judge w s (EHttp kind path t q) (snd (step_http true s kind path t q)) = true.
+Lemma judge_http w s kind path t q h :
+  tok_inv s -> judge w s (EHttp kind path t q h) (snd (step_http true s kind path t q h)) = true.
 Proof.
   intros H. unfold judge, step_http, allowed.
   cbn [is_request identity target granted accepted keepalive feasible unauth_code judge_join].
@@ -553,15 +577,15 @@ Proof.
     try (apply Z.eqb_eq in E1); try (apply Z.eqb_eq in E2); try (apply Z.eqb_eq in E0); subst; discriminate.
 Qed.
 
-Lemma judge_api w s ep t u b n :
-  tok_inv s -> judge w s (EApi ep t u b n) (snd (step_api s ep t u b n)) = true.
+Lemma judge_api w s ep t u b n h :
+  tok_inv s -> judge w s (EApi ep t u b n h) (snd (step_api s ep t u b n h)) = true.
 Proof.
-  intros H. unfold judge, step_api, allowed, api_gate.
+  intros H. unfold judge, step_api, allowed, api_gate, api_gate_h.
   cbn [is_request identity target granted accepted keepalive feasible unauth_code judge_join snd o_code ob].
   destruct (ep_open ep) eqn:Eo; [reflexivity|]. cbn [negb].
   rewrite auth_gate_spec by exact H.
   destruct (token_identity s t) as [v|]; [|reflexivity].
-  destruct (ep_read ep) eqn:Er; [reflexivity|].
+  destruct (ep_read ep) eqn:Er; [reflexivity|]. rewrite ident_hdr_set.
   unfold spec_allows, rights_now. destruct (find_user (users s) v) as [x|]; [|reflexivity].
   destruct (u_admin x); reflexivity.
 Qed.
@@ -613,7 +637,7 @@ Proof.
         apply not_wsp_ok. destruct rot; simpl; rewrite Ek; discriminate.
     + unfold conns_ok. simpl. apply Forall_set_nth; [exact H|].
       apply not_wsp_ok. simpl. rewrite Ek. discriminate.
-  - unfold step_wsopen. destruct (stream_gate fx s t path None) as [code uname].
+  - unfold step_wsopen. destruct (stream_gate fx s t path None hdrs) as [code uname].
     destruct (negb (code =? 200)).
     + destruct ((kind =? 0) || (kind =? 1)); [|exact H].
       unfold conns_ok. simpl. apply Forall_app. split; [exact H|]. constructor; [|constructor].
@@ -656,9 +680,9 @@ Proof. induction 1; [apply conns_ok_init|apply step_conns_ok; assumption]. Qed.
 (* ------------------------------------------------------------------ *)
 (* F. WebSocket upgrade and the data channel                            *)
 
-Lemma judge_wsopen w s kind path t chan :
+Lemma judge_wsopen w s kind path t chan h :
   tok_inv s -> conns_ok s ->
-  judge w s (EWsOpen kind path t chan) (snd (step_wsopen true s kind path t chan)) = true.
+  judge w s (EWsOpen kind path t chan h) (snd (step_wsopen true s kind path t chan h)) = true.
 Proof.
   intros H Hok. unfold judge, step_wsopen, allowed.
   cbn [is_request identity target granted accepted keepalive feasible unauth_code judge_join].
@@ -778,15 +802,15 @@ Qed.
 
 (* the media a data channel receives is that of a control channel of the same verified user,
    who holds the pull right on the stream it plays *)
-Theorem data_channel_requires_owner_and_pull w s path t chan :
+Theorem data_channel_requires_owner_and_pull w s path t chan h :
   reachable w s ->
-  let o := snd (step w s (EWsOpen 2 path t chan)) in
+  let o := snd (step w s (EWsOpen 2 path t chan h)) in
   (o_media o = true \/ o_aux o = 200) ->
   exists u r, token_identity s t = Some u /\ u = c_user (get_conn s chan) /\
               rights_now (users s) u = Some r /\ permits r PULL (c_path (get_conn s chan)) = true.
 Proof.
-  intros Hr o Hm. destruct (reachable_judged w s (EWsOpen 2 path t chan) Hr) as [J _].
-  assert (Hq : is_request (EWsOpen 2 path t chan) = true) by reflexivity.
+  intros Hr o Hm. destruct (reachable_judged w s (EWsOpen 2 path t chan h) Hr) as [J _].
+  assert (Hq : is_request (EWsOpen 2 path t chan h) = true) by reflexivity.
   destruct (judge_parts _ _ _ _ Hq J) as (_ & _ & _ & Pj). fold o in Pj.
   unfold judge_join in Pj. cbn [Z.eqb identity] in Pj.
   assert (Hb : o_media o || (o_aux o =? 200) = true).
@@ -838,17 +862,17 @@ Proof.
 Qed.
 
 (* management calls succeed only for administrators (stream queries: for any authenticated caller) *)
-Theorem api_requires_admin w s ep t u b n :
+Theorem api_requires_admin w s ep t u b n h :
   reachable w s ->
   ep_open ep = false ->
-  o_code (snd (step w s (EApi ep t u b n))) = 2 ->
+  o_code (snd (step w s (EApi ep t u b n h))) = 2 ->
   exists v, token_identity s t = Some v /\
             (ep_read ep = false -> exists push pull, rights_now (users s) v = Some (true, push, pull)).
 Proof.
-  intros Hr Ho Hc. destruct (reachable_judged w s (EApi ep t u b n) Hr) as [J _].
-  assert (Hq : is_request (EApi ep t u b n) = true) by (cbn; rewrite Ho; reflexivity).
+  intros Hr Ho Hc. destruct (reachable_judged w s (EApi ep t u b n h) Hr) as [J _].
+  assert (Hq : is_request (EApi ep t u b n h) = true) by (cbn; rewrite Ho; reflexivity).
   destruct (judge_parts _ _ _ _ Hq J) as (P1 & _).
-  assert (Hg : granted (EApi ep t u b n) (snd (step w s (EApi ep t u b n))) = true).
+  assert (Hg : granted (EApi ep t u b n h) (snd (step w s (EApi ep t u b n h))) = true).
   { cbn [granted]. rewrite Ho, Hc. reflexivity. }
   destruct (P1 Hg) as [Ha|Ha]; [|discriminate].
   apply allowed_inv in Ha as (v & Hi & Hs). exists v. split; [exact Hi|].
@@ -1078,7 +1102,7 @@ Proof.
     rewrite Hd. clear Hd. destruct (digest_check _ _ _ _) as [[uname|] rot]; [|simp; auto].
     cbn [reg set_users]. rewrite (rtsp_handle_ext _ _ _ _ _ _ _ _ (fun a p => eq_sym (Hp uname a p))).
     destruct (rtsp_handle _ _ _ _ _ _ _) as [[c2 code] pub]. simp. auto.
-  - unfold step_wsopen, stream_gate, auth_gate, access_check, get_conn. cbn [users toks now conns reg ctr set_users].
+  - unfold step_wsopen, stream_gate, stream_gate_h, auth_gate, access_check, get_conn. cbn [users toks now conns reg ctr set_users].
     destruct (if is_none t then None else _) as [uname|]; [|simp; break_step; simp; auto].
     rewrite <- Hp. destruct (perm_go _ _ _ _); cbn [negb Z.eqb Pos.eqb]; break_step; simp; auto.
   - unfold step_wsrtsp. unfold get_conn. cbn [conns users reg set_users].
@@ -1089,10 +1113,10 @@ Proof.
     destruct (negb _); [simp; auto|].
     rewrite (wsp_handle_ext _ _ _ _ _ _ (fun a p => eq_sym (Hp _ a p))).
     destruct (wsp_handle _ _ _ _ _) as [c2 code]. simp. auto.
-  - unfold step_http, stream_gate, auth_gate, access_check. cbn [users toks now reg set_users].
+  - unfold step_http, stream_gate, stream_gate_h, auth_gate, access_check. cbn [users toks now reg set_users].
     destruct (if is_none t then None else _) as [uname|]; [|simp; auto].
     rewrite <- Hp. destruct (perm_go _ _ _ _); cbn; break_step; simp; auto.
-  - unfold step_api, api_gate, auth_gate, access_check. cbn [users toks now set_users].
+  - unfold step_api, api_gate, api_gate_h, auth_gate, access_check. cbn [users toks now set_users].
     destruct (ep_open ep); [simp|].
     + destruct (ep =? EP_SAVE_USER); [simp; auto using save_same|].
       destruct (ep =? EP_DEL_USER); simp; auto using del_same.
@@ -1100,7 +1124,7 @@ Proof.
       destruct (ep_read ep).
       * simp. destruct (ep =? EP_SAVE_USER); [simp; auto using save_same|].
         destruct (ep =? EP_DEL_USER); simp; auto using del_same.
-      * rewrite <- H. destruct (find_user (users s) uname) as [x|]; [|simp; auto].
+      * rewrite !ident_hdr_set. rewrite <- H. destruct (find_user (users s) uname) as [x|]; [|simp; auto].
         destruct (u_admin x); [|simp; auto].
         simp. destruct (ep =? EP_SAVE_USER); [simp; auto using save_same|].
         destruct (ep =? EP_DEL_USER); simp; auto using del_same.
@@ -1156,28 +1180,28 @@ Proof. exists (bs "/a/*"), (bs "/c"), (bs "/a/b"). vm_compute. auto. Qed.
 
 (* D21: ann (push /p/*, pull /x) opens ws-rtsp on /x and publishes /a/c *)
 Theorem ws_publish_without_push_refuted :
-  refutes [ELogin (bs "ann") (bs "pa"); EWsOpen 0 (bs "/x") (TA 0) 0;
+  refutes [ELogin (bs "ann") (bs "pa"); EWsOpen 0 (bs "/x") (TA 0) 0 [];
            EWsRtsp 0 M_ANNOUNCE (bs "/a/c"); EWsRtsp 0 M_SETUP_RECORD (bs "/a/c"); EWsRtsp 0 M_RECORD (bs "/a/c")] = true.
 Proof. vm_compute. reflexivity. Qed.
 
 (* D22: bob plays /a/b over WSP; ann (pull /x) joins his channel from /x and receives his media *)
 Theorem wsp_datachannel_hijack_refuted :
   refutes [ELogin (bs "bob") (bs "pb"); ELogin (bs "ann") (bs "pa");
-           EWsOpen 1 (bs "/a/b") (TA 0) 0; EWsOpen 2 (bs "/a/b") (TA 0) 0;
+           EWsOpen 1 (bs "/a/b") (TA 0) 0 []; EWsOpen 2 (bs "/a/b") (TA 0) 0 [];
            EWsp 0 M_DESCRIBE (bs "/a/b"); EWsp 0 M_SETUP_PLAY (bs "/a/b"); EWsp 0 M_PLAY (bs "/a/b");
-           EWsOpen 2 (bs "/x") (TA 1) 0] = true.
+           EWsOpen 2 (bs "/x") (TA 1) 0 []] = true.
 Proof. vm_compute. reflexivity. Qed.
 
 (* WSP: rights withdrawn after the upgrade, PLAY still served *)
 Theorem wsp_rights_not_current_refuted :
-  refutes [ELogin (bs "bob") (bs "pb"); EWsOpen 1 (bs "/a/b") (TA 0) 0;
+  refutes [ELogin (bs "bob") (bs "pb"); EWsOpen 1 (bs "/a/b") (TA 0) 0 [];
            EWsp 0 M_DESCRIBE (bs "/a/b"); EWsp 0 M_SETUP_PLAY (bs "/a/b");
            ESave (mk "bob" "pb" false "" "/x") false; EWsp 0 M_PLAY (bs "/a/b")] = true.
 Proof. vm_compute. reflexivity. Qed.
 
 (* D23: eve holds exactly /a/b and is refused its segment 1 *)
 Theorem hls_segment_path_refuted :
-  refutes [ELogin (bs "eve") (bs "pe"); EHttp 2 (bs "/a/b") (TA 0) 1] = true.
+  refutes [ELogin (bs "eve") (bs "pe"); EHttp 2 (bs "/a/b") (TA 0) 1 []] = true.
 Proof. vm_compute. reflexivity. Qed.
 
 (* digest: after one wrong response the right one, computed from the challenge just received, is refused *)
@@ -1188,12 +1212,53 @@ Proof. vm_compute. reflexivity. Qed.
 
 (* and the repaired model passes on the very same histories (instances of model_passes, by computation) *)
 Example repaired_passes_on_witnesses :
-  ok_run w0 s0 [ELogin (bs "eve") (bs "pe"); EHttp 2 (bs "/a/b") (TA 0) 1]
-         (run w0 s0 [ELogin (bs "eve") (bs "pe"); EHttp 2 (bs "/a/b") (TA 0) 1]) = true.
+  ok_run w0 s0 [ELogin (bs "eve") (bs "pe"); EHttp 2 (bs "/a/b") (TA 0) 1 []]
+         (run w0 s0 [ELogin (bs "eve") (bs "pe"); EHttp 2 (bs "/a/b") (TA 0) 1 []]) = true.
 Proof. vm_compute. reflexivity. Qed.
 
 (* the history of the non-vacuity example in Properties/C11.v *)
 Definition nv_login : event := ELogin (bs "bob") (bs "pb").
-Definition nv_get (t : tokv) : event := EHttp 0 (bs "/a/b") t 0.
+Definition nv_get (t : tokv) : event := EHttp 0 (bs "/a/b") t 0 [(bs "USER_NAME_IN_TOKEN", bs "root")].
 Definition nv_evs : list event :=
   [nv_login; nv_get (TA 0); nv_get (TR 0); ESave (mk "bob" "pb" false "" "/c") false; nv_get (TA 0)].
+
+(* ------------------------------------------------------------------ *)
+(* J. the identity every decision uses is the token's user, whatever headers the client sends *)
+
+Theorem identity_is_token_user w s ev : step w s ev = step w s (strip_hdrs ev).
+Proof.
+  destruct ev; try reflexivity; unfold step; cbn [step_gen strip_hdrs].
+  - unfold step_wsopen. rewrite stream_gate_hdrs. reflexivity.
+  - unfold step_http. rewrite stream_gate_hdrs. reflexivity.
+  - unfold step_api. rewrite api_gate_hdrs. reflexivity.
+Qed.
+
+Theorem run_ignores_client_headers w s evs : run w s evs = run w s (map strip_hdrs evs).
+Proof.
+  revert s. induction evs as [|e evs IH]; intros s; [reflexivity|].
+  unfold run in *. cbn [run_gen map]. pose proof (identity_is_token_user w s e) as H. unfold step in H.
+  rewrite <- H. destruct (step_gen true w s e) as [s1 o]. f_equal. apply IH.
+Qed.
+
+(* the name the later interceptors read is the token's, for every header list *)
+Theorem header_identity_set hdrs tokuser : ident_hdr false hdrs tokuser = tokuser.
+Proof. apply ident_hdr_set. Qed.
+
+(* with Add instead of Set the client's own copy of the header comes first: bob (pull /a/+... only) names the
+   administrator and is served /x, and passes the administrator check of the management API *)
+Definition users1 : list user := users0 ++ [mk "root" "pr" true "" ""].
+Definition s1 : state := fst (step w0 (state0 users1 [bs "/a/b"; bs "/x"]) (ELogin (bs "bob") (bs "pb"))).
+Definition forged : list hdr := [(bs "user_name_in_token", bs "root")].
+Definition n_bob : bytes := bs "bob".
+Definition n_root : bytes := bs "root".
+Definition p_x : bytes := bs "/x".
+
+Theorem identity_header_add_refuted :
+  ident_hdr true forged n_bob = n_root /\
+  stream_gate_h true true s1 (TA 0) p_x None [] = (403, n_bob) /\
+  stream_gate_h true true s1 (TA 0) p_x None forged = (200, n_root) /\
+  api_gate_h true s1 EP_USERS (TA 0) [] = 403 /\
+  api_gate_h true s1 EP_USERS (TA 0) forged = 2 /\
+  stream_gate true s1 (TA 0) p_x None forged = (403, n_bob) /\
+  api_gate s1 EP_USERS (TA 0) forged = 403.
+Proof. vm_compute. repeat split; reflexivity. Qed.
